@@ -156,7 +156,7 @@ def sweep_block(cfg):
     for v, key in cfg["vars"]:
         variables[v] = {"from_context": key} if key is not None else {"values": list(cfg.get("values", [1.0, 2.0]))}
     first = cfg["vars"][0][0] if cfg["vars"] else "t"
-    d = {"parameters": {b: "2 * %s" % first for b in cfg["bound"]}, "variables": variables}
+    d = {"parameters": {b: cfg.get("expr_form", "2 * %s") % first for b in cfg["bound"]}, "variables": variables}
     if cfg["coll"] is not None:
         d["collection"] = cfg["coll"][0]
     return {"parameter_sweep": d}
@@ -675,10 +675,18 @@ def unusual_values_and_histories_oracle(ck, cfgs):
     n = 0
     value_sets = [[0.5, 1.0, float("inf")], [float("nan"), 1.0], [1, True, 2.5], [3.0], [float(i) for i in range(40)], [-0.0, 0.0], [1e308, -1e308, 5e-324]]
     sweeps = [c for c in cfgs if strip_key(c)[0].get("t") == "sweep" and any(k is None for _, k in strip_key(c)[0]["vars"])][:12]
-    for ci, c in enumerate(sweeps):
-        for vs in (value_sets if ci < 3 else value_sets[:2]):
+    # spellings of one expression that the evaluator may or may not accept (blank-padded, tab, parenthesised, broken over
+    # lines inside parentheses, trailing comment): each is either rejected at build time or gives contract-satisfying classes
+    expr_forms = [" 2 * %s", "2 * %s ", "\t2 * %s", "(2 * %s)", "(2 *\n %s)", "2 * %s  # twice", "+2 * %s", "2 * (%s)"]
+    bound_sweeps = [c for c in cfgs if strip_key(c)[0].get("t") == "sweep" and strip_key(c)[0]["bound"]][:6]
+    variants = [(c, "values", vs) for ci, c in enumerate(sweeps) for vs in (value_sets if ci < 3 else value_sets[:2])]
+    variants += [(c, "expr_form", f) for ci, c in enumerate(bound_sweeps) for f in (expr_forms if ci < 2 else expr_forms[:3])]
+    for c, field, vs in variants:
+        if True:
             c2 = copy.deepcopy(c)
-            strip_key(c2)[0]["values"] = vs
+            strip_key(c2)[0][field] = vs
+            if field == "expr_form":
+                vs = [vs]
             rep = {"kind": "unusual-values", "config": json.loads(json.dumps(c2, default=repr)), "values": [repr(v) for v in vs[:6]]}
             try:
                 node = build_node(c2)
